@@ -332,7 +332,7 @@ func corrC11(out string, seed uint64, tier string, replay string) *report {
 	}
 	// goroutine leak: the lexer goroutine must have exited after every call
 	leak := -1
-	for i := 0; i < 200; i++ {
+	for i := 0; i < 2500; i++ { // up to five seconds on a loaded machine
 		runtime.Gosched()
 		time.Sleep(2 * time.Millisecond)
 		if g := runtime.NumGoroutine(); g <= g0 {
